@@ -49,9 +49,9 @@ type Result struct {
 	BoundDone   int
 	Divergences int
 	// scheduler only
-	SpawnedThreads int    // goroutines started by the code under test, over all executions
-	Deadlocks      int    // executions that ended with live threads and none enabled
-	Stuck          bool   // a thread blocked outside the scheduler: exploration abandoned
+	SpawnedThreads int  // goroutines started by the code under test, over all executions
+	Deadlocks      int  // executions that ended with live threads and none enabled
+	Stuck          bool // a thread blocked outside the scheduler: exploration abandoned
 	StuckAt        string
 }
 
@@ -162,8 +162,8 @@ type thread struct {
 	done     bool
 	obs      string
 	accesses int
-	root     int              // the body this thread (transitively) belongs to
-	waiting  func() bool      // non-nil while blocked in the scheduler
+	root     int         // the body this thread (transitively) belongs to
+	waiting  func() bool // non-nil while blocked in the scheduler
 	waitWhat string
 }
 
